@@ -610,28 +610,44 @@ def lazy_case(v, shape, N, opts):
         viol = {("s", k): ts for k, ts in fs.row_violations(v, xs, ns).items()}
         frame_level = []
     else:
-        arr = [(c, KINDS[c]) for c in opts.get("arr", ["a", "b"])]
+        kinds = dict(KINDS, **opts.get("kinds", {}))
+        arr = [(c, kinds[c]) for c in opts.get("arr", ["a", "b"])]
         obj = v.frame(arr, N, labels="l", distinct_labels=True)
         ca = O.numeric_check(v, opts.get("check_a", "ge"), True, tag="A")
         cb = O.numeric_check(v, opts.get("check_b", "isin"), True, tag="B")
-        fa = O.FieldSpec("float", nullable=v.bool("nullable"), unique=v.bool("unique_a"), checks=[ca], report_duplicates=opts.get("rd", "all"))
+        a_decl = "int" if opts.get("coerce_a_int") else "float"
+        fa = O.FieldSpec(a_decl, nullable=v.bool("nullable"), unique=v.bool("unique_a"), checks=[ca], report_duplicates=opts.get("rd", "all"),
+                         regex=bool(opts.get("regex")), coerce=bool(opts.get("coerce_a_int")))
         fb = O.FieldSpec("int", checks=[cb])
-        spec = O.FrameSpec({"a": fa, "b": fb}, strict=opts.get("strict", False), unique=opts.get("unique"), report_duplicates=opts.get("rd", "all"))
+        key_a = opts.get("regex") or "a"
+        spec = O.FrameSpec({key_a: fa, "b": fb}, strict=opts.get("strict", False), unique=opts.get("unique"), report_duplicates=opts.get("rd", "all"))
         schema = spec.build(pa, Check)
         cells = {c: v.cells(f"{c}_", k, N, k in ("float", "str")) for c, k in arr}
-        viol = spec.row_violations(v, arr, cells) if all(c in dict(arr) for c in ("a", "b")) or True else {}
-        viol = {k: ts for k, ts in viol.items()}
+        viol = {k: ts for k, ts in spec.row_violations(v, arr, cells).items()}
         frame_level = []
         labels_present = [a[0] for a in arr]
-        if "a" not in labels_present:
+        governed = spec.matches(labels_present)
+        if not governed[key_a]:
             frame_level.append("column_in_dataframe")
         if "b" not in labels_present:
             frame_level.append("column_in_dataframe")
-        if opts.get("strict") is True and any(l not in ("a", "b") for l in labels_present):
+        if opts.get("strict") is True and any(l not in governed[key_a] + ["b"] for l in labels_present):
             frame_level.append("column_in_schema")
+        # scalar entries that name a column: a physical dtype other than the declared one (C02: the report names the offending column)
+        dtype_entries = sorted((l, "dtype") for key, fs in spec.columns.items() for l in governed[key] if dict(arr)[l] != fs.kind and not fs.coerce)
     labels = [z3.Int(f"l{i}") for i in range(N)]
-    oe = H.outcome(lambda: schema.validate(obj, lazy=False))
-    ol = H.outcome(lambda: schema.validate(obj, lazy=True))
+    depth = {"SO": "SCHEMA_ONLY", "DO": "DATA_ONLY"}.get(opts.get("depth"))
+
+    def run(lz):
+        if depth:
+            from pandera.config import ValidationDepth, config_context
+
+            with config_context(validation_depth=getattr(ValidationDepth, depth)):
+                return schema.validate(obj, lazy=lz)
+        return schema.validate(obj, lazy=lz)
+
+    oe = H.outcome(lambda: run(False))
+    ol = H.outcome(lambda: run(True))
     raised_e, raised_l = oe["kind"] != "accept", ol["kind"] != "accept"
     asserts = [("lazy_eager_agree", v.holds(raised_e == raised_l)),
                ("lazy/channel", v.holds(channel_ok(oe) and channel_ok(ol) and oe["kind"] in ("accept", "SchemaError") and ol["kind"] in ("accept", "SchemaErrors")))]
@@ -642,9 +658,22 @@ def lazy_case(v, shape, N, opts):
         lazy_keys = [(str(x.reason_code), _err_check_id(x), str(getattr(x.schema, "name", None))) for x in ol["exc"].schema_errors]
         asserts.append(("eager_error_among_lazy", v.holds(key in lazy_keys)))
         facts["eager_key"] = list(key)
-    if ol["kind"] == "SchemaErrors":
+    if ol["kind"] == "SchemaErrors" and (depth or opts.get("coerce_a_int")):
+        # under a restricted depth / with coercion only the depth-independent clauses are asserted: the counts per reason equal
+        # the number of collected errors with that reason
+        from collections import Counter
+
+        exc = ol["exc"]
+        cnt = Counter(str(x.reason_code).split(".")[-1] for x in exc.schema_errors)
+        asserts.append(("report/error_counts", v.holds(dict(cnt) == {str(k).split(".")[-1]: n for k, n in dict(exc.error_counts).items()})))
+        facts["counts"] = [dict(cnt), {str(k).split(".")[-1]: n for k, n in dict(exc.error_counts).items()}]
+    elif ol["kind"] == "SchemaErrors":
         exc = ol["exc"]
         fc = exc.failure_cases
+        if shape != "series":
+            got = _dtype_entries(fc, v)
+            asserts.append(("report/dtype_entries_name_the_column", v.holds(sorted(got) == dtype_entries)))
+            facts["dtype_entries"] = [sorted(got), dtype_entries]
         if isinstance(fc, symframe.DataFrame):
             comp, sound = report_exact_terms(v, fc, viol, cells, labels)
             asserts.append(("report/complete", v.holds(comp)))
@@ -679,6 +708,28 @@ def _err_check_id(e):
     if isinstance(c, str):
         return c.split("(")[0]
     return str(getattr(c, "name", None) or c).split("(")[0]
+
+
+def _dtype_entries(fc, v):
+    """(column, 'dtype') for every scalar entry of a failure-case table that reports a wrong physical dtype"""
+    out = []
+    if isinstance(fc, symframe.DataFrame):
+        cols = {k: c for k, c in fc._cols}
+        for r in range(len(fc.present)):
+            chk = str(cols["check"].vals[r])
+            if chk.startswith("dtype("):
+                if v.sym:
+                    from symx import eng
+
+                    if eng().branch(fc.present[r]):
+                        out.append((str(cols["column"].vals[r]), "dtype"))
+                elif v.vals.term(fc.present[r]):
+                    out.append((str(cols["column"].vals[r]), "dtype"))
+    else:
+        for _, r in fc.iterrows():
+            if str(r["check"]).startswith("dtype("):
+                out.append((str(r["column"]), "dtype"))
+    return out
 
 
 def _scalar_entries(fc, v):
